@@ -70,11 +70,13 @@ def tree_hash():
         for p in (EXTRACTOR_SRC,):
             with open(p, "rb") as fh:
                 h.update(fh.read())
-        tu = os.path.join(VERIF, "tu")
-        for f in sorted(os.listdir(tu)):
-            with open(os.path.join(tu, f), "rb") as fh:
-                h.update(f.encode())
-                h.update(fh.read())
+        for sub in ("tu", "fixtures"):
+            tu = os.path.join(VERIF, sub)
+            for f in sorted(os.listdir(tu)) if os.path.isdir(tu) else []:
+                with open(os.path.join(tu, f), "rb") as fh:
+                    h.update(f.encode())
+                    h.update(fh.read())
+        h.update(b"v2")
         h.update(REPO.encode())
         _tree_hash = h.hexdigest()[:24]
     return _tree_hash
@@ -97,7 +99,7 @@ def parse_loc(s):
     return (relpath(m.group(1)), int(m.group(2)), int(m.group(3)))
 
 
-def extract_unit(name, src, flags, timeout=900):
+def extract_unit(name, src, flags, timeout=900, extra_roots=()):
     """Run the extractor on one TU (cached). Returns the output prefix."""
     ensure_extractor()
     d = os.path.join(CACHE, tree_hash())
@@ -106,7 +108,10 @@ def extract_unit(name, src, flags, timeout=900):
     if os.path.exists(prefix + ".ok"):
         return prefix
     tmp = prefix + ".tmp%d" % os.getpid()
-    cmd = [EXTRACTOR, "--root", REPO + "/", "--out", tmp, "--", src, STD, "-I" + os.path.join(REPO, "include"),
+    roots = []
+    for r in extra_roots:
+        roots += ["--root", r]
+    cmd = [EXTRACTOR, "--root", REPO + "/"] + roots + ["--out", tmp, "--", src, STD, "-I" + os.path.join(REPO, "include"),
            "-UNDEBUG", "-resource-dir", _resource_dir(), "-w", "-ferror-limit=20"] + list(flags)
     t0 = time.time()
     r = subprocess.run(cmd, stdout=subprocess.PIPE, stderr=subprocess.STDOUT, text=True, timeout=timeout)
